@@ -38,6 +38,14 @@ CLAIMED = {
          "Exploration: non-hiding commitments of every group-based scheme are compared part by part with plain sums of key elements (no MSM, no leading-zero skipping, explicit shift windows); additivity of commitments and of commitment randomness (through the schemes' own AddAssign) is checked against the naive commitment of a*p+b*q; hash-based commitments are compared with a by-hand Merkle root over the harness's own row-encoded matrix, including metadata, prover state, determinism and sensitivity.",
          "Trusted: ark-ec group arithmetic, the public LinearEncode::encode used for rows (its linearity and length are checked in C13), SHA-256/Blake2s implementations.",
          "DESIGN.md §4 C08"),
+ "C09": ("property-based testing (proptest): pairing/group identities over every published key element, differential trim-vs-SRS comparison, independent hash-to-curve re-derivation, boundary requests",
+         "Exploration over generated key requests: every SRS power is tied to its predecessor by a pairing identity (random-combination check plus per-index localisation), trimmed keys are compared element by element with the SRS slices they must equal (prefixes, shifted windows, one shift element per sorted de-duplicated bound), degree reports are probed at supported and supported+1, keys trimmed twice interoperate, out-of-range requests must be refused; IPA/Hyrax generators are re-derived by the harness's own hash-to-curve loop and checked for validity and distinctness; Brakedown matrices are read through a mirror of the parameter serialization; multilinear-PST tables are tied to g_mask by pairings.",
+         "Pairing identities show all powers belong to one trapdoor, not that it is random. Marlin accepting enforced bounds above supported_degree (outside the documented trim domain) is not asserted either way.",
+         "DESIGN.md §4 C09"),
+ "C15": ("exhaustive enumeration of the 6x6 parameter grid with pairing identities + property-based openings of mixed-monomial polynomials",
+         "The (num_vars, max_degree) grid 1..=6 x 1..=6 is enumerated completely on every run: key set equals the harness's own enumeration of exponent vectors, every element is tied to its divisor monomial by a pairing identity for every variable, trim is checked for every supported degree; generated mixed-monomial polynomials (with and without hiding) must open and verify (C01 oracle) and reject perturbed statements (C02 oracle).",
+         "Grid is exhaustive for n, d <= 6 only; openings are explored, not exhaustive.",
+         "DESIGN.md §4 C15"),
 }
 
 NOT_YET = "check not built yet in this round (planned, see DESIGN.md §4)"
